@@ -5,7 +5,7 @@
    regenerated file with the snapshot function by function and (b) replays these very proof files
    against the regenerated model (From Gen instead of From Snapshot).
 
-   snapshot_dep: Step, addBranchCycles, pagesDiffer, op_bpl, op_bmi, op_bvc, op_bvs, op_bra, op_bcc, op_bcs, op_bne, op_beq, nRead, EaRead, op_inc, op_dec, op_asl, op_lsr, op_rol, op_ror, tbl_mode, tbl_size, tbl_proc, setZN8, setZ8, setN8, setZN16, setZ16, setN16, op_clc, op_cld, op_cli, op_clv, op_dex, op_dey, op_inx, op_iny, op_nop, op_sec, op_sed, op_sei, op_stp, op_tax, op_tay, op_tcd, op_tcs, op_tdc, op_tsc, op_tsx, op_txa, op_txs, op_txy, op_tya, op_tyx, op_wai, op_xba
+   snapshot_dep: Step, cmdRead, cmdRead16, nRead16_wrap, compare8, compare16, op_and, op_bit, op_cmp, op_cpx, op_cpy, op_eor, op_lda, op_ldx, op_ldy, op_ora, addBranchCycles, pagesDiffer, op_bpl, op_bmi, op_bvc, op_bvs, op_bra, op_bcc, op_bcs, op_bne, op_beq, nRead, EaRead, op_inc, op_dec, op_asl, op_lsr, op_rol, op_ror, tbl_mode, tbl_size, tbl_proc, setZN8, setZ8, setN8, setZN16, setZ16, setN16, op_clc, op_cld, op_cli, op_clv, op_dex, op_dey, op_inx, op_iny, op_nop, op_sec, op_sed, op_sei, op_stp, op_tax, op_tay, op_tcd, op_tcs, op_tdc, op_tsc, op_tsx, op_txa, op_txs, op_txy, op_tya, op_tyx, op_wai, op_xba
 
    Full statement (the goal of the build; kept visible):
 
@@ -15,18 +15,18 @@
      Theorem C01_run  : the same along n steps while E stays 0 (induction on n, using the wf conclusion).
 
    Proved here: C01_step_partial = the statement of C01_step for the opcodes of [proved_opcodes]
-   (register-only implied-mode and accumulator-mode instructions and the nine rel8 branches so far), grown family by family.  What is missing: every
+   (register-only implied-mode and accumulator-mode instructions the nine rel8 branches and ten immediate-operand instructions so far), grown family by family.  What is missing: every
    opcode not in the list (all addressing modes that touch memory, stack, flow, block moves, width
    switches): they are covered by the differential run of checks/cpuspec.py only. *)
 From Coq Require Import ZArith NArith List Bool Lia.
 From Spec Require Import ISA Spec816.
 From Lib Require Import ZOps Machine.
 From Snapshot Require Import GenFields GenCpu65.
-From Props Require Import C01Base C01Shift C01OpsA C01OpsB C01OpsC C01OpsD C01OpsE C01OpsF C01OpsG C01OpsH C01Flow.
+From Props Require Import C01Base C01Shift C01OpsA C01OpsB C01OpsC C01OpsD C01OpsE C01OpsF C01OpsG C01OpsH C01Flow C01Imm C01OpsI C01OpsJ C01OpsK.
 Import ListNotations.
 Local Open Scope Z_scope.
 
-Definition proved_opcodes : list Z := [24; 56; 88; 120; 184; 216; 248; 234; 203; 219; 232; 200; 202; 136; 155; 187; 186; 154; 170; 168; 138; 152; 27; 59; 91; 123; 235; 26; 58; 10; 74; 42; 106; 16; 48; 80; 112; 128; 144; 176; 208; 240].
+Definition proved_opcodes : list Z := [24; 56; 88; 120; 184; 216; 248; 234; 203; 219; 232; 200; 202; 136; 155; 187; 186; 154; 170; 168; 138; 152; 27; 59; 91; 123; 235; 26; 58; 10; 74; 42; 106; 16; 48; 80; 112; 128; 144; 176; 208; 240; 169; 162; 160; 137; 41; 9; 73; 201; 224; 192].
 
 Definition C01_step_partial_statement : Prop :=
   forall op, In op proved_opcodes ->
@@ -78,7 +78,17 @@ Proof.
       exact ref_90 |
       exact ref_B0 |
       exact ref_D0 |
-      exact ref_F0 ] | ]).
+      exact ref_F0 |
+      exact ref_A9 |
+      exact ref_A2 |
+      exact ref_A0 |
+      exact ref_89 |
+      exact ref_29 |
+      exact ref_09 |
+      exact ref_49 |
+      exact ref_C9 |
+      exact ref_E0 |
+      exact ref_C0 ] | ]).
   contradiction.
 Qed.
 
